@@ -32,8 +32,11 @@ def run(seed):
         if r.returncode != 0:
             return seed, dict(applies=False, note=r.stderr[-300:])
         env = dict(os.environ, VERIF_REPO=wt, VERIF_NO_EVIDENCE="1", VERIF_REPLAY_SUFFIX="_" + seed, VERIF_WORK_SUFFIX="_" + seed)
-        p = subprocess.run("/venv/bin/python harness/vp.py check %s --tier quick --no-build" % pid, shell=True, cwd=VERIF,
-                           capture_output=True, text=True, env=env, timeout=1800)
+        try:
+            p = subprocess.run("exec /venv/bin/python harness/vp.py check %s --tier quick --no-build" % pid, shell=True, cwd=VERIF,
+                               capture_output=True, text=True, env=env, timeout=900)
+        except subprocess.TimeoutExpired:
+            return seed, dict(applies=True, rc=None, detected=False, by=None, note="the check did not finish within 900 s")
         viol = [l for l in p.stdout.splitlines() if l.startswith("VIOLATION")]
         direct = [re.search(r"replay=\S*?_direct_([^.\s]+)", l).group(1).replace("_" + seed, "") for l in viol if "_direct_" in l]
         corr = [l for l in viol if "no-failing-input-found" in l]
